@@ -132,12 +132,29 @@ def run_value_monitor(chk, pid, monitor, corpus, seed, tier):
         chk.hist("dropped_items", (de["message"] or "")[:60])
     results = corpus.run(monitor, seed, tier)
     check_runs(chk, results, monitor)
+    # C02 quantifies over the fragment on which serde round-trips its own output. A type one of whose sampled values serde
+    # itself rejects is outside it - and so is every type that contains values of such a type, whether or not its own
+    # samples happened to hit the combination
+    outside = set()
+    for r in results:
+        for ev in r["events"]:
+            if ev.get("ev") == "type" and str(ev.get("excluded") or "").startswith("serde does not round-trip"):
+                it0 = meta["entries"].get(ev["id"], {}).get("item")
+                if it0:
+                    outside.add(it0)
     for r in results:
         for ev in r["events"]:
             if ev.get("ev") != "type":
                 continue
             eid = ev["id"]
             ent = meta["entries"].get(eid, {})
+            if outside and ev.get("fails"):
+                below = dep_closure(meta, ent.get("item")) | {d for a in ent.get("arg_items", []) for d in dep_closure(meta, a)}
+                if below & outside:
+                    kept = [f for f in ev["fails"] if (f.get("against") or f.get("stage")) not in ("deserialize",)]
+                    if len(kept) != len(ev["fails"]):
+                        chk.hist("totals", "rejected_witnesses_of_types_outside_the_round_trip_fragment", len(ev["fails"]) - len(kept))
+                    ev["fails"] = kept
             item = meta["items"].get(ent.get("item"), {})
             tags = item.get("tags", [])
             chk.add_eval(ev.get("checked", 0))
